@@ -175,6 +175,9 @@ def witnesses() -> list[dict]:
                {"main.py": MAIN + "# 3\n", "a.py": "import b\ndef f() -> int:\n    return b.g()\n", "b.py": "def g() -> int:\n    return 1\nbad: int = 'x'\n"},
                kinds=["edit-users", "edit-users+signature", "edit-users+signature"])
     out.append({"name": n, "steps": s, "modes": ["normal"], "targets": ["main.py"]})
+    n, s = raw("entry-followed-deleted", {"main.py": "import a\nx: int = a.f()\n", "a.py": "def f() -> int:\n    return 1\n"},
+               {"main.py": "import a\nx: int = a.f()\n"}, kinds=["delete-followed-module"])
+    out.append({"name": n, "steps": s, "modes": ["normal"], "targets": ["main.py"]})
     # F7: same size, same second
     n, s = raw("same-second", {"a.py": "x: int = 11\n"}, {"a.py": "x: int = ''\n"}, kinds=["same-size-same-second"])
     out.append({"name": n, "steps": s, "modes": ["normal"], "same_second": {1}})
@@ -335,8 +338,18 @@ def step_events(prev_files: dict | None, files: dict, edits: list[dict], hist_st
                 ent["hist"].append(e["to"])
     hist_state["stub_removed"] = []
     hist_state["new_stdlib_imports"] = []
+    hist_state.setdefault("followed_moved", set())
     if prev_files is None:
         return
+    if hist_state.get("targets"):
+        # entry-point mode: modules that are only reached by following imports and whose defining file appeared,
+        # disappeared or moved (X.py / X.pyi / X/__init__.py)
+        def stem(rel: str) -> str:
+            r = rel[:-4] if rel.endswith(".pyi") else rel[:-3]
+            return r[:-9] if r.endswith("/__init__") else r
+        for rel in set(prev_files) ^ set(files):
+            if rel.endswith((".py", ".pyi")) and rel not in hist_state["targets"]:
+                hist_state["followed_moved"].add(stem(rel))
     for rel in prev_files:
         if rel not in files and rel.endswith(".py") and "/" in rel:
             # a module (or a whole sub-package) deleted below a package that remains
@@ -416,7 +429,7 @@ def replay_of(h: dict, k: int, diff) -> dict:
 
 def check_outputs(ctx: Ctx, h: dict, count: bool = True) -> tuple[bool, bool]:
     """The property's oracle on one history.  Returns (any difference, any VIOLATION reported)."""
-    hist_state: dict = {"scenario_history": h["kind"] in ("pairs", "catalog", "search", "witness")}
+    hist_state: dict = {"scenario_history": h["kind"] in ("pairs", "catalog", "search", "witness"), "targets": h.get("targets")}
     prev_files = None
     prev_daemon = None
     any_diff = False
@@ -481,6 +494,14 @@ def check_outputs(ctx: Ctx, h: dict, count: bool = True) -> tuple[bool, bool]:
                 ctx.report({"class": "module-path-change-undetected", "edit": "stub-removed-source-unchanged"},
                            f"a stub was deleted while the source file it shadowed is unchanged since the daemon last saw it: the daemon "
                            f"keeps checking against the deleted stub ({hist_state['stub_removed']}, follow-imports={h['mode']}, step {k}): {diff[:3]}",
+                           replay_of(h, k, diff))
+                break
+            if rest and hist_state["followed_moved"] and lines_within(rest_lines, dependents(st["files"], sorted(hist_state["followed_moved"]))
+                                                                    | dependents(h["steps"][k - 1]["files"] if k else {}, sorted(hist_state["followed_moved"]))):
+                ctx.report({"class": "followed-module-file-change", "mode": "entry-points-only"},
+                           f"only the entry points are given to the daemon; a module reached by following imports was deleted, created or "
+                           f"moved ({sorted(hist_state['followed_moved'])}) and the daemon's answer for its importers differs from a full check "
+                           f"(follow-imports={h['mode']}, step {k}, edits {[e.get('kind') for e in st['edits']]}): {rest[:3]}",
                            replay_of(h, k, diff))
                 break
             if rest and blocker_moved:
